@@ -3,7 +3,7 @@ From Coq Require Import Strings.String Strings.Byte.
 From Coq Require Import List Arith NArith ZArith Bool Lia Permutation.
 From Verif Require Import Base.Bytes Base.Outcome Model.Quote Model.Args Model.Numfmt
   Model.StatusQuery Model.Xfer Model.RawProto Model.Wire
-  Proofs.XferProofs Proofs.RawProofs Proofs.WireProofs.
+  Proofs.XferProofs Proofs.RawProofs Proofs.WireProofs Proofs.WireOnce.
 Import ListNotations.
 Local Open Scope N_scope.
 
@@ -281,6 +281,7 @@ Section Generic.
         try discriminate. exfalso. apply (A r). reflexivity. }
     destruct (W_pop _ _ _ _ Hwo) as (Wx & t & Eq & Hwo').
     rewrite Eq, (unpack_head x t Wx) in Hstep.
+    match type of Hstep with context [if ?b then None else _] => destruct b; [discriminate|] end.
     inversion Hstep; subst st'; clear Hstep.
     close_inv s ws wo'; fold es eo. rewrite queue_with_queue_other'.
     assert (Hxin : In x (items eo (x :: wo'))).
@@ -495,23 +496,41 @@ Section Preserve.
       intros ->. cbn in E1. discriminate.
   Qed.
 
-  Lemma pres_unlock st st' s :
-    Inv cfg st -> step cfg st (EUnlock s) = Some st' -> Inv cfg st'.
+  (* what the returning caller's status assignment needs: its call is still in the table *)
+  Definition unlocking_pending (e : ep) : Prop :=
+    forall c, In (Some c) (e_unlocking e) -> pget (e_pending e) (c_seq c) = Some c.
+
+  Lemma unlock_done_same e k oc rest :
+    unlocking_pending e -> once_inv e -> take_nth k (e_unlocking e) = Some (oc, rest) ->
+    match oc with Some c => overwrite c (e_done e) | None => e_done e end = e_done e.
   Proof.
-    intros HI Hstep. open_inv st s HI ws wo Hw Hl Hwo Hlo.
+    intros HU Honce Et. destruct oc as [c|]; [|reflexivity].
+    apply overwrite_pending; [exact Honce|]. apply HU.
+    destruct (take_nth_spec _ _ _ _ Et) as (l1 & l2 & -> & _). apply in_app_iff. right. left. reflexivity.
+  Qed.
+
+  Lemma pres_unlock st st' s k :
+    Inv cfg st -> unlocking_pending (ep_of st s) -> once_inv (ep_of st s) ->
+    step cfg st (EUnlock s k) = Some st' -> Inv cfg st'.
+  Proof.
+    intros HI HU Honce Hstep. open_inv st s HI ws wo Hw Hl Hwo Hlo.
     cbn [step] in Hstep.
     set (es := ep_of st s) in *. set (eo := ep_of st (other s)) in *.
-    destruct (e_unlocking es) as [|n] eqn:Eu; [discriminate|].
+    destruct (take_nth k (e_unlocking es)) as [[oc rest]|] eqn:Et; [|discriminate].
+    rewrite (unlock_done_same es k oc rest HU Honce Et) in Hstep.
+    destruct (take_nth_spec _ _ _ _ Et) as (l1 & l2 & Eo & Er).
     inversion Hstep; subst st'; clear Hstep; close_inv s ws wo; fold es eo.
     destruct Hw as (Wf & Wl & Wn & Wm).
-    assert (Ww : e_writers es = []) by (destruct (e_writers es); [reflexivity | cbn in Wn; lia]).
-    assert (n = O) by (rewrite Ww in Wn; cbn in Wn; lia). subst n.
+    assert (Ww : e_writers es = []).
+    { destruct (e_writers es); [reflexivity|]. rewrite Eo, app_length in Wn. cbn in Wn. lia. }
+    assert (Hr : rest = []).
+    { rewrite Eo, Ww, app_length in Wn. cbn in Wn. destruct l1; destruct l2; cbn in *; try lia. subst rest. reflexivity. }
     destruct (link_perm_both cfg s es
-      (mkEp (e_count es) (e_pending es) (e_outbox es) false (e_writers es) 0 (e_done es)
+      (mkEp (e_count es) (e_pending es) (e_outbox es) false (e_writers es) rest (e_done es)
             (e_seen es) (e_issued es) (e_sent es) (e_broken es)) eo ws ws wo Hl Hlo
       (Permutation_refl _)) as [L1 L2]; try reflexivity.
     split; split; [|exact L1|exact Hwo|exact L2].
-    unfold wire_inv. cbn [e_lock e_writers e_unlocking]. rewrite Ww in *.
+    unfold wire_inv. cbn [e_lock e_writers e_unlocking]. rewrite Ww in *. rewrite Hr.
     refine (conj Wf (conj _ (conj _ Wm))); [auto | cbn; lia].
   Qed.
 
@@ -524,9 +543,9 @@ Section Preserve.
     destruct (take_nth j (e_writers es)) as [[[[x wr] [|c rest]] others]|] eqn:Et; try discriminate.
     destruct (take_nth_spec _ _ _ _ Et) as (l1 & l2 & Eo & Er).
     destruct Hw as (Wf & Wl & Wn & Wm).
-    assert (l1 = [] /\ l2 = [] /\ e_unlocking es = O) as (-> & -> & Wu).
+    assert (l1 = [] /\ l2 = [] /\ e_unlocking es = []) as (-> & -> & Wu).
     { rewrite Eo in Wn. rewrite app_length in Wn. cbn in Wn.
-      destruct l1; destruct l2; cbn in Wn; repeat split; try lia; reflexivity. }
+      destruct l1; destruct l2; destruct (e_unlocking es); cbn in Wn; repeat split; try lia; reflexivity. }
     cbn [app] in Eo, Er. subst others. rewrite Eo in Wm.
     destruct Wm as (Wq & Wf1 & Wne & Wall & Wx).
     assert (Elk : e_lock es = true).
@@ -535,7 +554,7 @@ Section Preserve.
     - (* last chunk: the frame is whole on the wire *)
       close_inv s (ws ++ [x]) wo; fold es eo.
       assert (P : Permutation
-        (items (mkEp (e_count es) (e_pending es) (e_outbox es) (e_lock es) [] (S (e_unlocking es))
+        (items (mkEp (e_count es) (e_pending es) (e_outbox es) (e_lock es) [] (caller_of es x :: e_unlocking es)
                      (e_done es) (e_seen es) (e_issued es) (e_sent es) (e_broken es)) (ws ++ [x]))
         (items es ws)).
       { unfold items. cbn [e_outbox e_writers map]. rewrite Eo. cbn [map wfr fst app].
@@ -657,7 +676,7 @@ Section Single.
     inversion Hstep; subst st'; clear Hstep.
     close_inv s (ws ++ [x]) wo; fold es eo.
     assert (P : Permutation
-      (items (mkEp (e_count es) (e_pending es) (e_outbox es) (e_lock es) (l1 ++ l2) (S (e_unlocking es))
+      (items (mkEp (e_count es) (e_pending es) (e_outbox es) (e_lock es) (l1 ++ l2) (caller_of es x :: e_unlocking es)
                    (e_done es) (e_seen es) (e_issued es) (e_sent es) (e_broken es)) (ws ++ [x]))
       (items es ws)).
     { unfold items. cbn [e_outbox e_writers]. rewrite Eo. rewrite !map_app. cbn [map wfr fst].
@@ -671,16 +690,18 @@ Section Single.
     - cbn [e_writers]. apply Forall_app. split; assumption.
   Qed.
 
-  Lemma pres1_unlock st st' s :
-    Inv1 st -> step cfg st (EUnlock s) = Some st' -> Inv1 st'.
+  Lemma pres1_unlock st st' s k :
+    Inv1 st -> unlocking_pending (ep_of st s) -> once_inv (ep_of st s) ->
+    step cfg st (EUnlock s k) = Some st' -> Inv1 st'.
   Proof.
-    intros HI Hstep. open_inv st s HI ws wo Hw Hl Hwo Hlo.
+    intros HI HU Honce Hstep. open_inv st s HI ws wo Hw Hl Hwo Hlo.
     cbn [step] in Hstep.
     set (es := ep_of st s) in *. set (eo := ep_of st (other s)) in *.
-    destruct (e_unlocking es) as [|n] eqn:Eu; [discriminate|].
+    destruct (take_nth k (e_unlocking es)) as [[oc rest]|] eqn:Et; [|discriminate].
+    rewrite (unlock_done_same es k oc rest HU Honce Et) in Hstep.
     inversion Hstep; subst st'; clear Hstep; close_inv s ws wo; fold es eo.
     destruct (link_perm_both cfg s es
-      (mkEp (e_count es) (e_pending es) (e_outbox es) false (e_writers es) n (e_done es)
+      (mkEp (e_count es) (e_pending es) (e_outbox es) false (e_writers es) rest (e_done es)
             (e_seen es) (e_issued es) (e_sent es) (e_broken es)) eo ws ws wo Hl Hlo
       (Permutation_refl _)) as [L1 L2]; try reflexivity.
     split; split; [|exact L1|exact Hwo|exact L2].
@@ -688,14 +709,98 @@ Section Single.
   Qed.
 
   Lemma pres1_step st ev st' :
-    single_write ev -> sane cfg st -> Inv1 st -> step cfg st ev = Some st' -> Inv1 st'.
+    single_write ev -> sane cfg st -> Inv1 st ->
+    (forall s, unlocking_pending (ep_of st s)) -> (forall s, once_inv (ep_of st s)) ->
+    step cfg st ev = Some st' -> Inv1 st'.
   Proof.
-    intros Hs Hsane HI Hstep. destruct ev.
+    intros Hs Hsane HI HU Honce Hstep. destruct ev.
     - exact (pres_callW cfg wire1 wire1_same st st' s method args meta codec ids Hsane HI Hstep).
     - exact (pres_pushW cfg wire1 wire1_same st st' s method args meta codec ids HI Hstep).
     - exact (pres1_lock st st' s i chunks Hs Hsane HI Hstep).
     - exact (pres1_write st st' s j HI Hstep).
-    - exact (pres1_unlock st st' s HI Hstep).
+    - exact (pres1_unlock st st' s k HI (HU s) (Honce s) Hstep).
     - exact (pres_recvW cfg Hinv wire1 wire1_same wire1_pop wire1_empty st st' s HI Hstep).
   Qed.
 End Single.
+
+(* ================================================================ the call's own mutex:
+   while a caller is between its last Write and its return from AsyncCall, its call stays in
+   the table (a reply for it waits in bindReply) *)
+Section CallMutex.
+  Variable cfg : config.
+  Hypothesis Hcallmu : cf_callmu cfg = true.
+
+  Lemma in_unlocking_same e e' :
+    unlocking_pending e -> e_unlocking e' = e_unlocking e -> e_pending e' = e_pending e ->
+    unlocking_pending e'.
+  Proof. unfold unlocking_pending. intros H -> ->. exact H. Qed.
+
+  Lemma presU st ev st' :
+    sane cfg st -> (forall s, pend_ok (ep_of st s)) ->
+    (forall s, unlocking_pending (ep_of st s)) ->
+    step cfg st ev = Some st' -> forall s, unlocking_pending (ep_of st' s).
+  Proof.
+    intros Hsane Hp HU Hstep t.
+    assert (K : forall (st0 : state) s0 e', (forall s, unlocking_pending (ep_of st0 s)) ->
+                unlocking_pending e' -> unlocking_pending (ep_of (with_ep st0 s0 e') t)).
+    { intros st0 s0 e' H0 He. destruct (side_cases s0 t) as [->| ->].
+      - rewrite ep_with_ep_same. exact He.
+      - rewrite ep_with_ep_other. apply H0. }
+    assert (Q : forall s0 q s, unlocking_pending (ep_of (with_queue st s0 q) s))
+      by (intros; rewrite ep_with_queue; apply HU).
+    destruct ev as [s method args meta codec ids|s method args meta codec ids|s i chunks|s j|s k|s];
+      cbn [step] in Hstep.
+    - (* ECall: the new number is not the key of a call whose caller is still inside *)
+      assert (Hne : forall c0, In (Some c0) (e_unlocking (ep_of st s)) ->
+                c_seq c0 <> seq_of_count (e_count (ep_of st s) + 1)).
+      { intros c0 Hin. pose proof (HU s c0 Hin) as G.
+        destruct (Hp s _ _ G) as (_ & A2 & A3 & A4 & _).
+        pose proof (proj1 Hsane s _ _ G) as W. rewrite A2.
+        apply seq_of_count_window; lia. }
+      destruct (pack_item cfg ids _); inversion Hstep; subst st'; apply K; auto;
+        intros c0 Hin; cbn [e_pending e_unlocking c_seq] in *.
+      + rewrite pget_pset_other by (apply Hne; exact Hin). apply (HU s). exact Hin.
+      + rewrite pget_pdel_other by (apply Hne; exact Hin). apply (HU s). exact Hin.
+    - destruct (pack_item cfg ids _); inversion Hstep; subst st'; apply K; auto;
+        (eapply in_unlocking_same; [apply (HU s) | reflexivity | reflexivity]).
+    - destruct (cf_lock cfg && e_lock (ep_of st s)); [discriminate|].
+      destruct (take_nth i (e_outbox (ep_of st s))) as [[x rest]|]; [|discriminate].
+      destruct (_ && _); inversion Hstep; subst st'; apply K; auto.
+      eapply in_unlocking_same; [apply (HU s) | reflexivity | reflexivity].
+    - destruct (take_nth j (e_writers (ep_of st s))) as [[[[x wr] [|c rest]] others]|]; try discriminate.
+      destruct rest; inversion Hstep; subst st'; apply K; auto.
+      + intros c0 [Heq|Hin]; cbn [e_pending e_unlocking] in *; [|apply (HU s); exact Hin].
+        unfold caller_of in Heq. destruct (beqb _ x01); [|discriminate].
+        destruct (Hp s _ _ Heq) as (A1 & _). rewrite A1. exact Heq.
+      + eapply in_unlocking_same; [apply (HU s) | reflexivity | reflexivity].
+    - destruct (take_nth k (e_unlocking (ep_of st s))) as [[oc rest]|] eqn:Et; [|discriminate].
+      destruct (take_nth_spec _ _ _ _ Et) as (l1 & l2 & Eo & Er).
+      inversion Hstep; subst st'; apply K; auto.
+      intros c0 Hin. cbn [e_pending e_unlocking] in *. apply (HU s). rewrite Eo. subst rest.
+      apply in_app_iff in Hin as [Hin|Hin]; apply in_app_iff; [left | right; right]; exact Hin.
+    - destruct (e_broken (ep_of st s)); [discriminate|].
+      destruct (raw_unpack _ _ _) as [[[[m ids] sz] rest]| |].
+      + destruct (cf_callmu cfg && beqb (m_mtype m) x02 && caller_inside (ep_of st s) (m_seq m)) eqn:Eb;
+          [discriminate|].
+        inversion Hstep; subst st'. apply K; [apply Q|].
+        unfold dispatch. destruct (beqb (m_mtype m) x01) eqn:E1.
+        { eapply in_unlocking_same; [apply (HU s) | reflexivity | reflexivity]. }
+        destruct (beqb (m_mtype m) x02) eqn:E2.
+        { destruct (pget (e_pending (ep_of st s)) (m_seq m)) as [c'|] eqn:G; [|apply (HU s)].
+          intros c0 Hin. cbn [e_pending e_unlocking] in *.
+          pose proof (HU s c0 Hin) as G0.
+          rewrite pget_pdel_other; [exact G0|]. intros Eq.
+          rewrite Hcallmu in Eb. cbn [andb] in Eb. unfold caller_inside in Eb. rewrite G in Eb.
+          rewrite Eq, G in G0. inversion G0; subst c'.
+          assert (T : existsb (fun oc => match oc with Some c => N.eqb (c_no c) (c_no c0) | None => false end)
+                              (e_unlocking (ep_of st s)) = true).
+          { apply existsb_exists. exists (Some c0). split; [exact Hin | apply N.eqb_refl]. }
+          rewrite T in Eb. discriminate. }
+        destruct (beqb (m_mtype m) x03);
+          (eapply in_unlocking_same; [apply (HU s) | reflexivity | reflexivity]).
+      + destruct (frame_complete _ _); inversion Hstep; subst st'; apply K; auto.
+        eapply in_unlocking_same; [apply (HU s) | reflexivity | reflexivity].
+      + destruct (frame_complete _ _); inversion Hstep; subst st'; apply K; auto.
+        eapply in_unlocking_same; [apply (HU s) | reflexivity | reflexivity].
+  Qed.
+End CallMutex.
